@@ -782,6 +782,17 @@ func isSuccessReturn(in ssa.Instruction, assume map[ssa.Value]bool) bool {
 // t = *slot; return t`.  If v is a load of a local slot and the same block stores to that slot before
 // the load, the stored value is returned.
 func resolveSpill(v ssa.Value) ssa.Value {
+	for i := 0; i < 4; i++ {
+		n := resolveSpill1(v)
+		if n == v {
+			return v
+		}
+		v = n
+	}
+	return v
+}
+
+func resolveSpill1(v ssa.Value) ssa.Value {
 	u, ok := v.(*ssa.UnOp)
 	if !ok || u.Op != token.MUL {
 		return v
@@ -803,7 +814,74 @@ func resolveSpill(v ssa.Value) ssa.Value {
 	if last != nil {
 		return last
 	}
-	return v
+	// a variable that lives in a cell because a closure reads it: the one store that reaches this load — it dominates
+	// the load, every other store to the cell lies before it and cannot run again after it, and no closure writes the cell
+	var stores []*ssa.Store
+	for _, ref := range *a.Referrers() {
+		switch x := ref.(type) {
+		case *ssa.Store:
+			if x.Addr == ssa.Value(a) {
+				stores = append(stores, x)
+			}
+		case *ssa.MakeClosure:
+			h, _ := x.Fn.(*ssa.Function)
+			if h == nil {
+				return v
+			}
+			for k, bnd := range x.Bindings {
+				if bnd != ssa.Value(a) || k >= len(h.FreeVars) {
+					continue
+				}
+				for _, fr := range *h.FreeVars[k].Referrers() {
+					if st, isS := fr.(*ssa.Store); isS && st.Addr == ssa.Value(h.FreeVars[k]) {
+						return v
+					}
+					if _, isU := fr.(*ssa.UnOp); !isU {
+						if _, isS := fr.(*ssa.Store); !isS {
+							return v // handed on: not followed
+						}
+					}
+				}
+			}
+		case *ssa.UnOp:
+		default:
+			return v // the address escapes otherwise
+		}
+	}
+	var reaching *ssa.Store
+	for _, st := range stores {
+		if !instrDominates(st, u) {
+			continue
+		}
+		if reaching == nil || instrDominates(reaching, st) {
+			reaching = st
+		}
+	}
+	if reaching == nil {
+		return v
+	}
+	for _, st := range stores {
+		if st == reaching {
+			continue
+		}
+		if !instrDominates(st, reaching) || blockReaches(reaching.Block(), st.Block(), nil) && st.Block() != reaching.Block() {
+			return v
+		}
+		if st.Block() == reaching.Block() && blockInLoop(st.Block()) {
+			return v
+		}
+	}
+	return reaching.Val
+}
+
+// blockInLoop: can the block reach itself?
+func blockInLoop(b *ssa.BasicBlock) bool {
+	for _, s := range b.Succs {
+		if blockReaches(s, b, nil) {
+			return true
+		}
+	}
+	return false
 }
 
 // assignedToNamedResult: in the syntax of fn, is the call at c's position the right-hand side of an assignment
